@@ -1,4 +1,5 @@
 """C15 — eval executes the instruction it is given, here and now."""
+import re
 from ..facts import callee_of, short, sp_file_line, expr_str, expr_walk, place_is_local, op_local
 from .. import kit, dbg, formula
 from ..linear import lin, show, same
@@ -122,7 +123,8 @@ def run(ctx):
     ctx.need(len(news) == 1, "AsmLine::new in eval")
     b, t = news[0]
     l = lin(ev.expr(t["args"][0], 10))
-    ok = same(l, 0, [("pc(", 1), ("orig", -1)])
+    # the machine's PC and origin, read through their accessors or - in a helper of RunState that was inlined here - as the fields themselves
+    ok = same(l, 0, [((lambda s_: "pc(" in s_ or re.search(r"\bstate\.pc\b|\bself\.pc\b", s_) is not None), 1), ("orig", -1)])
     ctx.instance(1)
     ctx.oblig(ok, {"line of the temporary statement": show(l)}, "pc - origin")
     if not ok:
